@@ -631,8 +631,58 @@ def rule_G1C(ctx):
                 e = s[1] if s[0] == "expr" else s[3]
                 if e is not None:
                     cast.walk_expr(e, lambda x: stores.append((fn, x, s[-1])) if x[0] == "un" and x[1] == "&" and x[2] == ("var", "g_cpu_features", "var") else None)
-    ctx.ob(len(stores) == 1 and stores[0][0] == "get_cpu_features" and stores[0][1] == ("var", "features", "var"), "c-cache-single-store", "c/blake3_dispatch.c",
+    # who may write: only get_cpu_features; what: a plain local; when: at most once per path, and the
+    # local is not modified between the store and the return of that same local (the published value is final)
+    bad = [(fn, cshow(v)) for fn, v, l in stores if fn != "get_cpu_features" or v[0] != "var"]
+    ctx.ob(bool(stores) and not bad, "c-cache-writer", "c/blake3_dispatch.c",
            "stores to g_cpu_features: %s" % [(fn, cshow(v)) for fn, v, l in stores])
+    gfn = need(d, "get_cpu_features")
+    problems = []
+
+    def is_store(st):
+        return st[0] == "assign" and st[2] == ("var", "g_cpu_features", "var")
+
+    def walk(stmts, states):
+        """states: set of (stored_var or None); returns the fall-through states"""
+        for st in stmts:
+            if not states:
+                break
+            if is_store(st):
+                nxt = set()
+                for sv in states:
+                    if sv is not None:
+                        problems.append("line %s: a second store to g_cpu_features on a path that has already published a value" % st[-1])
+                    nxt.add(st[3][1] if st[3][0] == "var" else "?")
+                states = nxt
+            elif st[0] == "assign" and st[2][0] == "var":
+                for sv in states:
+                    if sv is not None and st[2][1] == sv:
+                        problems.append("line %s: %s is modified after it was published to g_cpu_features" % (st[-1], sv))
+            elif st[0] == "return":
+                for sv in states:
+                    if sv is not None and st[1] != ("var", sv, "var"):
+                        problems.append("line %s: returns %s after publishing %s" % (st[-1], cshow(st[1]) if st[1] else "void", sv))
+                states = set()
+            elif st[0] == "if":
+                subs = [x for x in st if isinstance(x, list)]
+                out = set()
+                for sub in subs:
+                    out |= walk(sub, set(states))
+                if len(subs) < 2:
+                    out |= states
+                states = out
+            elif st[0] == "loop":
+                subs = [x for x in st if isinstance(x, list)]
+                cur = set(states)
+                for _ in range(3):
+                    cur |= walk(subs[0] if subs else [], set(cur))
+                states = cur
+            elif st[0] in ("switch", "goto", "label"):
+                problems.append("line %s: unstructured control flow in get_cpu_features" % st[-1])
+        return states
+    walk(gfn["body"], {None})
+    ctx.ob(not problems, "c-cache-store-final", where(d, gfn["line"]),
+           "; ".join(sorted(set(problems)))[:300] or "on every path g_cpu_features is stored at most once, from a local that is not modified afterwards and is the value returned")
     # the stored value is computed from cpuid / xgetbv only: every `features |= X` sits under tests of regs / mask
     gf = need(d, "get_cpu_features")
     srcs = set()
